@@ -167,6 +167,7 @@ def run(ctx):
     fake_iter_rule(ctx, prog)
     rle_runs_rule(ctx, prog)
     char_cell_rule(ctx, prog)
+    block_aligned_batches_rule(ctx, prog, 'C06-R9')
 
 
 def char_cell_rule(ctx, prog):
@@ -310,3 +311,59 @@ def self_writes(b):
             if fs:
                 out.add(fs[0].rsplit('::', 1)[-1])
     return out
+
+
+def block_aligned_batches_rule(ctx, prog, R9):
+    """C06-R9 = C05-R6: a batch of the row-set iterator never spans two blocks of a column"""
+    ctx.rule(R9, 'RowSetIterator sizes a batch by the smallest NON-ZERO fetch hint of its columns, and the block readers (validity bitmap of a '
+                 'nullable block, visibility bitmap under delete vectors) assume that a batch lies inside one block of every column. So a '
+                 'column that stands exactly at the end of a block must not answer 0: ConcreteColumnIterator::fetch_hint_inner returns the '
+                 'rows left in the current block only where it tested them non-zero, and otherwise the row count of the NEXT block '
+                 '(ColumnIndex::index(current_block_id + 1))')
+    b = next((x for n, x in prog.bodies.items() if 'concrete_column_iterator::ConcreteColumnIterator' in n and n.endswith('::fetch_hint_inner')), None)
+    if not ctx.anchor(R9, 'ConcreteColumnIterator::fetch_hint_inner', b is not None):
+        return
+    ctx.functions_analysed.add(b.name)
+    rets = [(bb, st) for bb, st in b.stmts() if st['s'] == 'assign' and st['lhs']['l'] == 0 and not st['lhs']['p']
+            and st['rv'].get('rv') == 'agg' and st['rv'].get('kind') == 'tuple' and len(st['rv']['ops']) == 2
+            and st['rv']['ops'][0]['k'] != 'const']
+    if not ctx.anchor(R9, 'fetch_hint_inner: the (hint, finished) result', rets):
+        return
+
+    def reads_field(l, name, depth=8):
+        for x in origin_locals(b, l, depth=depth):
+            for _, kind, payload in local_defs(b, x):
+                if kind == 'assign' and any(f.endswith(name) for pl in operand_places(payload) for f in pl_fields(pl)):
+                    return True
+        return False
+
+    for bb, st in rets:
+        res = st['rv']['ops'][0]['pl']['l']
+        src = origin_locals(b, res, depth=10)
+        # (L) some definition of the hint is the row count of block current_block_id + 1
+        ahead = []
+        for c in b.calls:
+            if (c.fn or '').endswith('ColumnIndex::index') and c.dest['l'] in src and len(c.args) > 1 and c.args[1]['k'] != 'const':
+                for x in origin_locals(b, c.args[1]['pl']['l'], depth=6):
+                    for _, kind, payload in local_defs(b, x):
+                        if kind == 'assign' and payload.get('rv') == 'binop' and payload['op'].startswith('Add') and \
+                                any(o.get('k') == 'const' and str(o.get('v', '')).startswith('1') for o in (payload['a'], payload['b'])) and \
+                                any(o.get('k') != 'const' and reads_field(o['pl']['l'], '::current_block_id', 3) for o in (payload['a'], payload['b'])):
+                            ahead.append(c.bb)
+        # (Z) the rows left in the current block reach the result only behind a test against zero
+        zero_tests = []
+        for i, bl in enumerate(b.blocks):
+            t = bl['term']
+            if t['k'] == 'switch' and not bl['cleanup'] and t['discr']['k'] != 'const':
+                for x in origin_locals(b, t['discr']['pl']['l'], depth=3):
+                    for _, kind, payload in local_defs(b, x):
+                        if kind == 'assign' and payload.get('rv') == 'binop' and payload['op'] in ('Eq', 'Ne', 'Gt', 'Lt') and \
+                                any(o.get('k') == 'const' and str(o.get('v', '')).startswith('0') for o in (payload['a'], payload['b'])):
+                            zero_tests.append(i)
+        ok = bool(ahead) and bool(zero_tests)
+        ctx.ob(R9, 'ConcreteColumnIterator·fetch_hint-never-zero-before-the-end', ok,
+               f'{b.name}: result built at block {bb}; look-ahead to block current_block_id + 1 at {sorted(set(ahead))}; tests against zero at {sorted(set(zero_tests))}',
+               [site(b, bb)],
+               what='fetch_hint answers 0 for a column that stands at the end of a block although more blocks follow: RowSetIterator then sizes the '
+                    'batch by the other columns and reads across a block boundary - a nullable column keeps the validity bits of the last block '
+                    'only (wrong NULLs, "unmatched row range"), and the visibility bitmap of a scan under delete vectors gets the wrong length')
